@@ -1,4 +1,94 @@
-import DesperModel.Disp
+import DesperProofs.Lemmas.DispTop
+/-
+  C04 — Disabled dispatchers defer events and release them once, in order.
+
+  Model: DesperModel/Disp.lean.  `release` is the loop of the `dispatch_enabled` setter
+  (events.py:122-139: pop one queued event at a time while dispatching is enabled).
+  `enqueued` / `released` are history variables: every event appended to the queue since the last
+  `clear`, and every event taken out of the queue for delivery, both in order.
+-/
 open Desper Desper.Disp
 
-theorem C04_placeholder : (1:Nat) = 1 := rfl
+/-- While dispatching is disabled `dispatch` runs no callback: the log is unchanged, and the event
+is appended at the end of the queue iff its name is known (events.py:105-111). -/
+theorem C04_silent_while_disabled (U : Universe) (fuel : Nat) (s : St) (ev args : String)
+    (hd : s.enabled = false) :
+    (execOp U (fuel + 1) s (.dispatch ev args)).1.log = s.log ∧
+    (execOp U (fuel + 1) s (.dispatch ev args)).2 = .ok ∧
+    (execOp U (fuel + 1) s (.dispatch ev args)).1.queue =
+      if (Dict.get? s.events ev).isSome then s.queue ++ [(ev, args)] else s.queue := by
+  simp only [execOp]
+  cases h : Dict.get? s.events ev <;> simp [hd]
+
+/-- Never twice, never lost, in order — for every history, re-entrant callbacks, raising callbacks
+and nested disables included: at every point between two top-level operations the events queued so
+far are exactly the ones already taken out for delivery (each taken out once, in dispatch order)
+followed by the ones still pending (in dispatch order). -/
+theorem C04_never_twice_in_order (U : Universe) (hU : U.WF) (held hints : List Obj) (fuel : Nat)
+    (ops : List Op) :
+    (run U fuel (init held hints) ops).enqueued =
+      (run U fuel (init held hints) ops).released ++ (run U fuel (init held hints) ops).queue :=
+  (top_state hU held hints fuel ops).2.2.2.1
+
+/-- The same holds at the very point a delivery fails: one step of the release takes the head of
+the queue out *before* delivering it; if that delivery does not complete (a callback raised) the
+enabling assignment ends there, in the state the callback left — the event is not in the queue any
+more and the rest of the queue is untouched by the release itself. -/
+theorem C04_release_step (U : Universe) (fuel : Nat) (s : St) (ev args : String)
+    (q : List (String × String)) (hq : s.queue = (ev, args) :: q) (he : s.enabled = true) :
+    release U (fuel + 1) s =
+      match execOp U fuel { s with queue := q, released := s.released ++ [(ev, args)] }
+          (.dispatch ev args) with
+      | (s', .ok) => release U fuel s'
+      | r => r := by
+  rw [release]
+  simp only [hq]
+  rw [if_neg (by simp [he])]
+  generalize execOp U fuel { s with queue := q, released := s.released ++ [(ev, args)] }
+    (.dispatch ev args) = res
+  obtain ⟨s', o⟩ := res
+  cases o <;> rfl
+
+/-- Before the enabling assignment returns normally every pending event has been taken out for
+delivery — unless a callback disabled dispatching again, in which case the rest stays pending
+(`C04_never_twice_in_order` says in which order).  Re-entrant callbacks included. -/
+theorem C04_release_drains (U : Universe) (fuel : Nat) (s : St)
+    (h : (execOp U (fuel + 1) s (.enable true)).2 = .ok) :
+    (execOp U (fuel + 1) s (.enable true)).1.queue = [] ∨
+    (execOp U (fuel + 1) s (.enable true)).1.enabled = false := by
+  simp only [execOp] at h ⊢
+  exact release_drains U fuel _ h
+
+/-- Fault-free release: with listeners whose callbacks do nothing else, enabling delivers the
+queued events in dispatch order, each exactly once to each listener registered (and alive) at
+delivery time, and leaves the queue empty. -/
+theorem C04_release_in_order (U : Universe) (hU : U.WF) (hp : Passive U) (held hints : List Obj)
+    (fuel fuel' : Nat) (ops : List Op)
+    (hok : (execOp U (fuel' + 1) (run U fuel (init held hints) ops) (.enable true)).2 = .ok) :
+    ∃ lists : List (List (Obj × String)),
+      Forall2 (fun e c => DeliveredOnce (run U fuel (init held hints) ops) e.1 c)
+        (run U fuel (init held hints) ops).queue lists ∧
+      (execOp U (fuel' + 1) (run U fuel (init held hints) ops) (.enable true)).1.log =
+        ((List.zipWith (fun e c => c.map (cbEntry e.2))
+            (run U fuel (init held hints) ops).queue lists).flatten).reverse ++
+          (run U fuel (init held hints) ops).log ∧
+      (execOp U (fuel' + 1) (run U fuel (init held hints) ops) (.enable true)).1.queue = [] := by
+  obtain ⟨_, _, hdy, _, _⟩ := top_state hU held hints fuel ops
+  simp only [execOp] at hok ⊢
+  obtain ⟨lists, f, l2, l3, _⟩ := release_passive hp fuel'
+    { run U fuel (init held hints) ops with enabled := true } hdy rfl hok
+  refine ⟨lists, ?_, l2, l3⟩
+  refine Forall2.imp ?_ f
+  intro a b hab
+  exact hab
+
+/-! non-vacuity: two events queued while disabled are released in order -/
+private def exU : Universe :=
+  { mapping := fun o => if o < 1 then some [("e0", "m0")] else none, reaction := fun _ _ _ => [] }
+
+example :
+    let s := run exU 100 (init [0] [0, 0]) [.add 0, .enable false, .dispatch "e0" "1", .dispatch "e0" "2"]
+    s.queue = [("e0", "1"), ("e0", "2")] ∧ s.log.filter (fun e => e matches .cb ..) = [] ∧
+    (execOp exU 100 s (.enable true)).2 = .ok ∧
+    (execOp exU 100 s (.enable true)).1.log.take 2 = [.cb (some 0) "m0" "2", .cb (some 0) "m0" "1"] := by
+  decide
